@@ -426,6 +426,7 @@ def history_probe(ctx, h, with_model=True):
             ans = ctx.lean(f"init {tbl}").split(" ")
             stale_nonfinite = nonfinite
             inits += 1
+        ctx.branches[f"c20.op:{fam}:{op[0]}:{out_py}"] += 1
         if out_py != ans[0]:
             ctx.count("c20.history", desc, nontrivial=False, branch=fam)
             ctx.fail("corr", "c20.history.model", desc, {"name": "Drivers/C20 step vs setattr / initialisation", "op_index": i, "op": op,
